@@ -908,6 +908,9 @@ def put_model(mjm: mujoco.MjModel, batch_sizes: dict[str, int] | None = None) ->
     ],
   ).any()
   m.sensor_rangefinder_bodyid = mjm.site_bodyid[mjm.sensor_objid[mjm.sensor_type == mujoco.mjtSensor.mjSENS_RANGEFINDER]]
+  # initial delay/interval history buffers exactly as MuJoCo initializes them (cursor = n-1,
+  # times = -n*h .. -h, user slot); used by make_data and reset_data
+  m.history0 = mujoco.MjData(mjm).history.copy() if mjm.nhistory else np.zeros(0)
   m.taxel_vertadr = [
     j + mjm.mesh_vertadr[mjm.sensor_objid[i]]
     for i in range(mjm.nsensor)
@@ -1848,6 +1851,8 @@ def make_data(
     ),
     # equality constraints
     "eq_active": wp.array(np.tile(mjm.eq_active0.astype(bool), (nworld, 1)), shape=(nworld, mjm.neq), dtype=bool),
+    # delay/interval history buffers start as in mujoco.MjData (not all zero)
+    "history": wp.array(np.tile(mjd.history, (nworld, 1)), shape=(nworld, mjm.nhistory), dtype=float),
     # island arrays
     "nisland": None,
     "tree_island": None,
@@ -2490,8 +2495,10 @@ def reset_data(m: types.Model, d: types.Data, reset: Optional[wp.array] = None):
     neq: int,
     nuserdata: int,
     nsensordata: int,
+    nhistory: int,
     qpos0: wp.array2d[float],
     eq_active0: wp.array[bool],
+    history0: wp.array[float],
     # Data in:
     nworld_in: int,
     # In:
@@ -2519,6 +2526,7 @@ def reset_data(m: types.Model, d: types.Data, reset: Optional[wp.array] = None):
     act_dot_out: wp.array2d[float],
     userdata_out: wp.array2d[float],
     sensordata_out: wp.array2d[float],
+    history_out: wp.array2d[float],
     nacon_out: wp.array[int],
     overflow_out: wp.array[int],
   ):
@@ -2560,6 +2568,8 @@ def reset_data(m: types.Model, d: types.Data, reset: Optional[wp.array] = None):
       sensordata_out[worldid, i] = 0.0
     for i in range(nuserdata):
       userdata_out[worldid, i] = 0.0
+    for i in range(nhistory):
+      history_out[worldid, i] = history0[i]
     overflow_out[worldid] = 0
 
   @wp.kernel(module="unique", enable_backward=False, grid_stride=False)
@@ -2773,8 +2783,10 @@ def reset_data(m: types.Model, d: types.Data, reset: Optional[wp.array] = None):
       m.neq,
       m.nuserdata,
       m.nsensordata,
+      m.nhistory,
       m.qpos0,
       m.eq_active0,
+      m.history0,
       d.nworld,
       reset_input,
     ],
@@ -2801,6 +2813,7 @@ def reset_data(m: types.Model, d: types.Data, reset: Optional[wp.array] = None):
       d.act_dot,
       d.userdata,
       d.sensordata,
+      d.history,
       d.nacon,
       d.overflow,
     ],
